@@ -631,6 +631,8 @@ def _frame_ok(st, frame, ref, key, contents):
                         pass
             elif kind == 'fresh':
                 ok.append(ref >= st.fn_alloc0)
+            elif kind == 'new':
+                ok.append(ref >= r)
         else:
             if kind == 'field' and k == key:
                 ok.append(ref == r)
@@ -640,6 +642,8 @@ def _frame_ok(st, frame, ref, key, contents):
                 return None
             elif kind == 'fresh':
                 ok.append(ref >= st.fn_alloc0)
+            elif kind == 'new':
+                ok.append(ref >= r)
     return z3.Or(ok)
 
 
